@@ -58,7 +58,7 @@ StepClauses(st, c, af, nk) ==
   {<<"C15.step-logs-its-starting-point", (ok \/ n >= 1) => (n >= 1 /\ rows[1].kind = "tag" /\ Near(c, c.first_row_ulp))>>,
    <<"C10.rows-carry-the-flags-in-force", \A i \in 1..n : rows[i].kind = "reload" \/ (SeqSet(rows[i].va) = EffV(st, c) /\ SeqSet(rows[i].ta) = EffT(st, c))>>,
    <<"C10.at-most-n-steps", Cardinality(JacRows(c)) <= c.n>>,
-   <<"C10.accepted-points-within-limits", \A i \in 1..n : SeqSet(rows[i].inlim) = Knobs(nk)>>,
+   <<"C10.accepted-points-within-limits", c.start_inlim => \A i \in 1..n : SeqSet(rows[i].inlim) = Knobs(nk)>>,   \* "starting inside the limits"
    <<"C10.step-bounded-by-max_step", \A i \in JacRows(c) : \A k \in Knobs(nk) : rows[i].ratio[k] <= PPM + Slack>>,
    <<"C10.disabled-knob-unchanged", \A i \in JacRows(c) : \A k \in Knobs(nk) : k \notin EffV(st, c) => k \in SeqSet(rows[i].same)>>,
    <<"C10.temporarily-disabled-are-active-again-on-return",
